@@ -417,5 +417,94 @@ func c09Shapes(root string, fset *token.FileSet) (string, error) {
 	}
 	sb.WriteString("\n(* udp/server/session.go: Session.shutdown is exactly `defer s.doneCancel(); for _, f := range s.popOnClose() { f() }` *)\n")
 	fmt.Fprintf(&sb, "Definition udp_shutdown_plain : bool := %s.\n", coqBool(plain))
+	more, err := c09Shapes2(root, fset)
+	if err != nil {
+		return "", err
+	}
+	sb.WriteString(more)
+	return sb.String(), nil
+}
+
+// c09Shapes2 emits two more facts that the models Liveness/Reg.v and Liveness/Accept.v transcribe by hand:
+//
+//	udp_pop_shape / tcp_pop_shape / dtls_pop_shape: what Session.popOnClose leaves in the on-close list after
+//	taking it: 0 `nil`, 1 the same slice truncated to length 0 (`x = x[:0]`, the backing array stays shared with
+//	the slice that was handed out), 2 anything else;
+//	tcp_conn_ctx / dtls_conn_ctx: the expression from which tcp/server.Server.createConn (`cfg.Ctx = <expr>`) and
+//	dtls/server.Server.createConn (first argument of NewSession) derive the context of an accepted connection.
+func c09Shapes2(root string, fset *token.FileSet) (string, error) {
+	var sb strings.Builder
+	sb.WriteString("\n(* Session.popOnClose: what is left in the on-close list after it was taken: 0 nil, 1 the list truncated to length 0\n   over the same backing array, 2 anything else *)\n")
+	for _, t := range []struct{ name, file string }{
+		{"udp", "udp/server/session.go"}, {"tcp", "tcp/client/session.go"}, {"dtls", "dtls/server/session.go"},
+	} {
+		fd, err := c09FindMethod(root, fset, t.file, "Session", "popOnClose")
+		if err != nil {
+			return "", err
+		}
+		shape := -1
+		for _, st := range fd.Body.List {
+			as, ok := st.(*ast.AssignStmt)
+			if !ok || as.Tok != token.ASSIGN || len(as.Lhs) != 1 || len(as.Rhs) != 1 {
+				continue
+			}
+			lhs := c09Expr(as.Lhs[0])
+			if !strings.HasSuffix(lhs, "onClose") {
+				continue
+			}
+			shape = 2
+			switch r := as.Rhs[0].(type) {
+			case *ast.Ident:
+				if r.Name == "nil" {
+					shape = 0
+				}
+			case *ast.SliceExpr:
+				lowZero := r.Low == nil
+				if l, ok := r.Low.(*ast.BasicLit); ok && l.Value == "0" {
+					lowZero = true
+				}
+				h, ok := r.High.(*ast.BasicLit)
+				if c09Expr(r.X) == lhs && lowZero && ok && h.Value == "0" && r.Max == nil {
+					shape = 1
+				}
+			}
+		}
+		if shape < 0 {
+			return "", fmt.Errorf("wake sets: %s: Session.popOnClose no longer assigns to the on-close list (the tie to the source is broken)", t.file)
+		}
+		fmt.Fprintf(&sb, "Definition %s_pop_shape : nat := %d.\n", t.name, shape)
+	}
+
+	cc, err := c09FindMethod(root, fset, "tcp/server/server.go", "Server", "createConn")
+	if err != nil {
+		return "", err
+	}
+	tcpCtx := ""
+	ast.Inspect(cc.Body, func(n ast.Node) bool {
+		if as, ok := n.(*ast.AssignStmt); ok && len(as.Lhs) == 1 && len(as.Rhs) == 1 && c09Expr(as.Lhs[0]) == "cfg.Ctx" {
+			tcpCtx = c09Expr(as.Rhs[0])
+		}
+		return true
+	})
+	if tcpCtx == "" {
+		return "", fmt.Errorf("wake sets: tcp/server.Server.createConn no longer assigns cfg.Ctx (the tie to the source is broken)")
+	}
+	dc, err := c09FindMethod(root, fset, "dtls/server/server.go", "Server", "createConn")
+	if err != nil {
+		return "", err
+	}
+	dtlsCtx := ""
+	ast.Inspect(dc.Body, func(n ast.Node) bool {
+		if c, ok := n.(*ast.CallExpr); ok && c09Expr(c.Fun) == "NewSession" && len(c.Args) > 0 && dtlsCtx == "" {
+			dtlsCtx = c09Expr(c.Args[0])
+		}
+		return true
+	})
+	if dtlsCtx == "" {
+		return "", fmt.Errorf("wake sets: dtls/server.Server.createConn no longer calls NewSession (the tie to the source is broken)")
+	}
+	sb.WriteString("\n(* the context from which the stream servers derive the context of an accepted connection: tcp/server/server.go\n   createConn `cfg.Ctx = <expr>`; dtls/server/server.go createConn `NewSession(<expr>, ...)`.  \"s.ctx\" is the server's own\n   context, cancelled by Stop *)\n")
+	fmt.Fprintf(&sb, "Definition tcp_conn_ctx : string := %q.\n", tcpCtx)
+	fmt.Fprintf(&sb, "Definition dtls_conn_ctx : string := %q.\n", dtlsCtx)
 	return sb.String(), nil
 }
